@@ -5,8 +5,8 @@ import (
 	"fmt"
 	"reflect"
 	"regexp"
-	"strings"
 	"sync"
+	"time"
 
 	"gitee.com/xuesongtao/protoc-go-valid/valid"
 	"verif/harness/internal/gal"
@@ -54,22 +54,38 @@ func mkCalls(r *gal.Rng, types []twoTag, n int) []hcall {
 			tt := types[r.Intn(len(types))]
 			h.call, h.exps, h.kind = tt.call(r)
 			h.kind = "struct:" + h.kind
-			if r.Chance(20) { // a per-call function under a built-in name
-				h.call.Local = map[string]string{"to": "L1"}
-				var ne []expE
-				for _, e := range h.exps {
-					if e.path == "A" && !strings.HasSuffix(e.text, "x") {
-						continue
-					}
-					ne = append(ne, e)
-				}
-				// A = "abc" is non-zero: the "to" rule of A (tag valid or alt, not the eq override) now writes FNL1
-				if !(h.call.HasUnsc) && h.call.Tag != "other" {
-					ne = append([]expE{{"C", "A", "FNL1"}}, ne...)
-				}
-				h.exps = ne
-				h.kind += "+localfn"
+		case x < 7 && r.Chance(25): // a date rule whose separator no earlier call used: its layout is built inside the call
+			m := fmt.Sprintf("M%dd", i)
+			sep := fmt.Sprintf("%c%d", "xyzw"[i%4], i)
+			rule := r.Pick([]string{"date", "year2month"})
+			layout := "2006" + sep + "01"
+			if rule == "date" {
+				layout += sep + "02"
 			}
+			val := time.Date(2021, 3, 4, 0, 0, 0, 0, time.UTC).Format(layout)
+			if r.Chance(40) {
+				val = "2021-03-04"
+			}
+			_, perr := time.Parse(layout, val)
+			orc := newOracles()
+			orc.tm[[2]string{layout, val}] = perr == nil
+			h.call = &walkCall{Entry: "var", VarRules: []string{rule + "='" + sep + "'|" + m}, Src: val, Orc: orc}
+			if perr != nil {
+				h.exps = []expE{{"C", "", m}}
+			}
+			h.kind = "var-date"
+		case x == 9 && i == n/2: // one call whose error text is far larger than 64 KB: the calls after it start from a clean buffer
+			big := struct {
+				L []WLeaf `valid:"exist"`
+			}{L: make([]WLeaf, 1800)}
+			for k := range big.L {
+				big.L[k] = wleaf()
+			}
+			h.call = &walkCall{Entry: "struct", Src: &big}
+			for k := range big.L {
+				h.exps = append(h.exps, expE{"C", fmt.Sprintf(".L[%d].S", k), "T1"})
+			}
+			h.kind = "struct:huge-error"
 		case x < 7 && r.Chance(35): // a re rule with a pattern no earlier call used: compiled (and perhaps cached) inside the call
 			m := fmt.Sprintf("M%dr", i)
 			pat := fmt.Sprintf("^[a-c]{%d}x*%d?$", r.Range(1, 4), i)
